@@ -501,11 +501,11 @@ theorem hist_parse {bc : BufCfg} (hbc : BCOKG bc) (grow : Nat → Nat → Nat) (
 theorem verify_facts (c : Gen.GSAPConfig) (h : GSAPConfig_Verify c = Gen.Err.ok) :
     BufConfig_Verify ⟨c.ShrinkSize, c.BufferSize, c.WindowSize, c.BlockSize⟩ = Gen.Err.ok ∧ 2 ≤ c.MinMatchLen ∧
       c.MinMatchLen ≤ c.WindowSize ∧ c.WindowSize ≤ 2147483647 ∧ c.BufferSize ≤ 2147483647 := by
-  simp only [GSAPConfig_Verify] at h
-  repeat' split at h
-  all_goals first
-    | contradiction
-    | (rename_i a1 a2 a3 a4 a5; exact ⟨Classical.not_not.mp a1, by omega, by omega, by omega, by omega⟩)
+  -- through the tie `gen_verify_GSAP` and the model's `verify`: the text of `GSAPConfig.Verify` is not looked at here
+  have hv := (gen_verify_GSAP c).mp h
+  simp only [verify, Bool.and_eq_true, decide_eq_true_eq] at hv
+  obtain ⟨⟨⟨⟨hb, hm2⟩, hmw⟩, hw⟩, hbuf⟩ := hv
+  exact ⟨(gen_bufVerify _).mpr hb, hm2, hmw, hw, hbuf⟩
 
 /-- the buffer part of `GSAPConfig.SetDefaults` is `BufConfig.SetDefaults` of the buffer part -/
 theorem sd_buf (cfg : Gen.GSAPConfig) :
